@@ -626,6 +626,23 @@ pub fn random_dag(rng: &mut Rng, max_nodes: usize, cap: u64) -> Vec<DN> {
     for _ in 0..rng.below(5) {
         pool.push(trees::random_atom(rng, 40));
     }
+    if rng.chance(1, 3) {
+        // families of inline small atoms that agree in their low bits (24, 16, 8) and differ only above:
+        // any key that packs node indices / values into too few bits merges them
+        let low = rng.below(1 << 24) as u32;
+        for top in [0u32, 1, 2, 3] {
+            let v = (top << 24) | low;
+            let b = v.to_be_bytes();
+            let skip = b.iter().take_while(|x| **x == 0).count();
+            let mut a = b[skip..].to_vec();
+            if !a.is_empty() && a[0] & 0x80 != 0 {
+                a.insert(0, 0);
+            }
+            pool.push(a);
+        }
+        pool.push(vec![0x01, 0x00, 0x00, (low & 0xff) as u8]);
+        pool.push(vec![(low & 0x7f) as u8]);
+    }
     let n = 1 + rng.below(max_nodes as u64) as usize;
     let mut d: Vec<DN> = Vec::new();
     let mut size: Vec<u64> = Vec::new();
